@@ -56,6 +56,7 @@ def candidates(rng, t, opts, st, depth):
         A((1, ['map', 'rep:%d' % _k(rng)]))
         A((1, ['map', 'upto:%d' % _k(rng)]))
         A((1, ['map', 'opt:%d' % _k(rng)]))
+        A((1, ['map', 'nt:%d' % _k(rng)]))
         A((1, ['map', 'half']))
         A((2, ['filter', 'modne:%d:0' % _k(rng)]))
         A((2, ['filter', 'gt:%d' % rng.randint(1, 12)]))
@@ -65,6 +66,8 @@ def candidates(rng, t, opts, st, depth):
             A((3, ['filter', 'modtruthy:%d' % _k(rng)]))
         A((1, ['clip', rng.randint(0, 4), rng.randint(5, 12)]))
         A((1, ['clip', None, rng.randint(5, 12)]))
+        A((0.5, ['clip', rng.randint(0, 6), None]))
+        A((0.3, ['clip', None, None]))
         A((1, ['assert_', 'gt:-1000000000']))      # always holds: generated values stay far above (a failing assert stops the stream)
     elif t == 'f':
         A((3, ['map', 'trunc']))
@@ -83,6 +86,9 @@ def candidates(rng, t, opts, st, depth):
     elif t == 'o':
         A((4, ['fill_none', rng.randint(5, 9)]))
         A((2, ['map', 'isnone']))
+    elif t == 'n':
+        A((4, ['fill_none', rng.randint(5, 9)]))
+        A((3, ['map', 'ntsum']))
     if t == 'x':
         A((6, ['map', 'digest']))
         A((1, ['filter', 'dgt:%d' % rng.randint(10, 60)]))
